@@ -332,8 +332,8 @@ func (o *oracle) after(s *sim, sp *runSpec, pre *preState, outcome string) (stri
 	if !sp.fetchNone && len(allFetched) > 0 {
 		full, revOnly = len(sp.fetch) == 0 || byAnchor(sp.signers), len(sp.fetch) > 0 && byRevoked(sp.signers)
 		for _, e := range sp.extras {
-			full = full && byAnchor(e.signers)
-			revOnly = revOnly && byRevoked(e.signers)
+			full = full && byAnchor(e.groundSigners())
+			revOnly = revOnly && byRevoked(e.groundSigners())
 		}
 		if full {
 			revOnly = false
@@ -420,7 +420,7 @@ func (o *oracle) after(s *sim, sp *runSpec, pre *preState, outcome string) (stri
 			}
 			clean := uint16(old.tag+128) == k.tag && !tbBefore[k.id] && !markerFor(stBefore, k.id)
 			for _, e := range sp.extras {
-				clean = clean && hasKey(e.signers, k.id, k.flags)
+				clean = clean && hasKey(e.groundSigners(), k.id, k.flags)
 			}
 			// kskFetched is indexed by tag, a later record replaces an earlier one: the REVOKE form is
 			// shadowed only by a DIFFERENT fetched SEP record with its tag that comes after it. A key
@@ -786,7 +786,7 @@ func (o *oracle) probe(s *sim, sp *runSpec, answered, ad bool) string {
 	}
 	valid := len(sp.fetch) > 0 && signedByLive(sp.signers)
 	for _, e := range sp.extras {
-		valid = valid && signedByLive(e.signers)
+		valid = valid && signedByLive(e.groundSigners())
 	}
 	switch {
 	case len(live) == 0 && answered:
